@@ -262,8 +262,15 @@ class Driver:
         if not requests:
             return []
         data = "\n".join(json.dumps(r, ensure_ascii=False) for r in requests) + "\n"
-        p = subprocess.run([DRIVER], input=data.encode("utf-8", "surrogatepass"),
-                           stdout=subprocess.PIPE, stderr=subprocess.PIPE, timeout=3600)
+        try:
+            p = subprocess.run([DRIVER], input=data.encode("utf-8", "surrogatepass"),
+                               stdout=subprocess.PIPE, stderr=subprocess.PIPE, timeout=3600)
+        except (FileNotFoundError, PermissionError, OSError):
+            # another check may be relinking the driver right now: wait for its build to finish, then try again
+            with BuildLock():
+                pass
+            p = subprocess.run([DRIVER], input=data.encode("utf-8", "surrogatepass"),
+                               stdout=subprocess.PIPE, stderr=subprocess.PIPE, timeout=3600)
         if p.returncode != 0:
             raise RuntimeError("driver failed: rc=%s %s" % (p.returncode, p.stderr.decode()[:500]))
         lines = p.stdout.decode("utf-8", "surrogatepass").split("\n")
